@@ -382,6 +382,8 @@ var decorations = []decoration{
 	{"line-after", func(g, t string) (string, bool) { return " //" + t + "\n" + g, true }},
 	// a line comment whose text contains the block-comment terminator (e.g. "// see /* x */")
 	{"line-after-blockend", func(g, t string) (string, bool) { return " //" + t + " */\n" + g, true }},
+	// a block comment spanning two lines, in inline position
+	{"blk-multiline-after", func(g, t string) (string, bool) { return "/*" + t + "\n   more " + t + "*/" + g, true }},
 	{"blk-ownline", func(g, t string) (string, bool) { return g + "\n/*" + t + "*/\n", true }},
 	{"line-ownline", func(g, t string) (string, bool) { return g + "\n//" + t + "\n", true }},
 	{"blk-before", func(g, t string) (string, bool) { return g + "/*" + t + "*/", true }},
@@ -428,8 +430,11 @@ func variant(s *seed, gaps []int, decs []int) (string, []string, bool) {
 			return "", nil, false
 		}
 		if hasTag(decorations[decs[k]].name) {
-			if decorations[decs[k]].name == "line-after-blockend" {
+			switch decorations[decs[k]].name {
+			case "line-after-blockend":
 				tag += " */"
+			case "blk-multiline-after":
+				tag += " more " + tag
 			}
 			tags = append(tags, tag)
 		}
@@ -988,9 +993,9 @@ func stripScratch(s, scratch string) string { return strings.ReplaceAll(s, scrat
 func run(r *evid.Run) {
 	r.Rule("seeds = every non-golden .proto under bufformat/testdata + hand-written texts covering every AST node kind; " +
 		"for every seed: the undecorated text, and for EVERY token gap (before each token incl. EOF) x EVERY decoration of the " +
-		"alphabet {/*c*/ after prev token, //c after prev token, '//c */' after prev token, /*c*/ on own line, //c on own line, /*c*/ glued before next token, " +
+		"alphabet {/*c*/ after prev token, //c after prev token, '//c */' after prev token, two-line /*c*/ after prev token, /*c*/ on own line, //c on own line, /*c*/ glued before next token, " +
 		"detached //c between blank lines, blank line, line break, ';', removal of the gap's whitespace} one variant; thorough adds every " +
-		"pair of decorations in every two gaps at distance 1 and 2. A case is counted (distinct, by text hash) when the variant parses; " +
+		"pair of decorations (of the 8 basic ones) in every two gaps at distance 1 and 2. A case is counted (distinct, by text hash) when the variant parses; " +
 		"variants that do not parse are skipped and counted. Inserted comment words are unique per (gap, decoration).")
 	r.Assume("lexical variety is the decoration alphabet applied to the seed corpus, not arbitrary text")
 	r.Assume("descriptor equality is checked on the unlinked descriptor (parser.ResultFromAST, validate=false, SourceCodeInfo cleared); " +
@@ -1092,6 +1097,13 @@ func run(r *evid.Run) {
 		}
 	})
 	// phases 3, 4 (thorough): every pair of decorations in gaps (g, g+1), then in gaps (g, g+2)
+	var pairAlphabet []int
+	for i, d := range decorations {
+		switch d.name {
+		case "blk-after", "line-after", "blk-ownline", "line-ownline", "blk-before", "blank", "semicolon", "strip-ws":
+			pairAlphabet = append(pairAlphabet, i)
+		}
+	}
 	maxDist := 0
 	if pairs {
 		maxDist = 2
@@ -1107,8 +1119,8 @@ func run(r *evid.Run) {
 			if w.g+dist >= len(w.s.toks) {
 				return
 			}
-			for d1 := 0; d1 < nd; d1++ {
-				for d2 := 0; d2 < nd; d2++ {
+			for _, d1 := range pairAlphabet {
+				for _, d2 := range pairAlphabet {
 					e.st.variants.Add(1)
 					text, tags, ok := variant(w.s, []int{w.g, w.g + dist}, []int{d1, d2})
 					if !ok {
